@@ -180,6 +180,12 @@ fn peer_id() -> Id {
 fn victim_id() -> Id {
     Id::v4("victim", 1, 10_003)
 }
+/// The configured seed: an address that is neither the peer's nor the victim's, so that every round
+/// has to contact it in addition to the known peers (one seed, at most two known members: the
+/// selection function then picks the seed whatever the generator says).
+fn seed_addr() -> SocketAddr {
+    SocketAddr::from(([127, 0, 0, 1], 10_004))
+}
 
 async fn poll_once<F: Future + Unpin>(f: &mut F) -> Poll<F::Output> {
     std::future::poll_fn(|cx| Poll::Ready(Pin::new(&mut *f).poll(cx))).await
@@ -224,7 +230,7 @@ impl Driver {
             cluster_id: "c".into(),
             gossip_interval: GOSSIP_INTERVAL,
             listen_addr: server_id().addr,
-            seed_nodes: vec![peer_id().addr.to_string()],
+            seed_nodes: vec![seed_addr().to_string()],
             failure_detector_config: FailureDetectorConfig::default(),
             marked_for_deletion_grace_period: Duration::from_secs(3600),
             catchup_callback: Some(Box::new(|| panic!("catch-up callback panics (scripted)"))),
@@ -279,6 +285,11 @@ impl Driver {
 
     fn sent_len(&self) -> usize {
         self.shared.sent.lock().unwrap().len()
+    }
+
+    /// SYN attempts (successful or not) towards the seed since log position `from`.
+    fn seed_syns_since(&self, from: usize) -> usize {
+        self.shared.sent.lock().unwrap()[from..].iter().filter(|(to, k, _)| *to == seed_addr() && *k == "syn").count()
     }
 
     async fn own_heartbeat(&self) -> Option<u64> {
@@ -373,6 +384,9 @@ impl Driver {
                     if self.sent_len() == before {
                         return Err(("a gossip interval elapsed but no SYN was attempted (a seed is configured)".into(), "round-without-syn".into()));
                     }
+                    if self.seed_syns_since(before) == 0 {
+                        return Err(("a gossip round did not try to contact the seed (one seed, no other seed among the targets)".into(), "round-skipped-the-seed".into()));
+                    }
                     t.inc("rounds_observed");
                 }
             }
@@ -458,6 +472,9 @@ impl Driver {
                 if syns == 0 {
                     return Err(("after the script a gossip round sends no SYN".into(), "round-without-syn".into()));
                 }
+                if self.seed_syns_since(before) == 0 {
+                    return Err(("after the script a gossip round does not contact the seed".into(), "round-skipped-the-seed".into()));
+                }
                 t.inc("live_probes_passed");
                 // and a shutdown completes
                 if let Some(h) = self.handle.take() {
@@ -523,8 +540,21 @@ pub fn run_script(script: &[Ev], t: &mut Tally) -> Option<V> {
 
 pub fn run(tier: Tier, started: Instant) -> Vec<Part> {
     let depth = tier.pick(5usize, 7usize);
+    let mut v = vec![scripts("C19", depth, tier, started)];
+    v.push(udp_send_faults(tier.pick(3, 4)));
+    v.push(udp_smoke());
+    v
+}
+
+/// The round-level clause of C17 (every round contacts the seed when it has to, whatever happened to
+/// the earlier sends of the round) on the real server loop: same scripts, only that oracle reported.
+pub fn run_c17(tier: Tier, started: Instant) -> Vec<Part> {
+    vec![scripts("C17", tier.pick(4usize, 6usize), tier, started)]
+}
+
+fn scripts(property: &'static str, depth: usize, tier: Tier, started: Instant) -> Part {
     let mut part = Part::new(&format!("server/scripts(len<={depth})"));
-    part.rule = format!("the real gossip server (spawn_chitchat) over a scripted Transport/Socket on a paused current-thread runtime; every script of length <= {depth} over {{next send ok / error / blocks until released, receive valid SYN / SYN-ACK / ACK / foreign-cluster SYN, fatal receive error, delay of one gossip interval, user takes the state lock, user gossip command, shutdown request, message whose processing panics (catch-up callback)}}; the driver makes one thing ready at a time and yields until the server is quiescent; after each script closing probes check: loop alive (termination watcher pending, valid SYN answered by a SYN-ACK, a gossip interval raises the heartbeat and sends a SYN, shutdown completes) or, after a fatal error / panic, termination reported through the watcher and nothing sent afterwards; user lock always granted within {YIELD_BOUND} yields, also while a send is blocked; non-trivial = scripts containing a fault (send error, blocked send, fatal error, panic)");
+    part.rule = format!("the real gossip server (spawn_chitchat) over a scripted Transport/Socket on a paused current-thread runtime; every script of length <= {depth} over {{next send ok / error / blocks until released, receive valid SYN / SYN-ACK / ACK / foreign-cluster SYN, fatal receive error, delay of one gossip interval, user takes the state lock, user gossip command, shutdown request, message whose processing panics (catch-up callback)}}; the driver makes one thing ready at a time and yields until the server is quiescent; after each script closing probes check: loop alive (termination watcher pending, valid SYN answered by a SYN-ACK, a gossip interval raises the heartbeat and attempts a SYN to every target including the configured seed even when an earlier send of the round failed, shutdown completes) or, after a fatal error / panic, termination reported through the watcher and nothing sent afterwards; user lock always granted within {YIELD_BOUND} yields, also while a send is blocked; non-trivial = scripts containing a fault (send error, blocked send, fatal error, panic)");
     part.bounds = json!({"alphabet": ALPHABET.iter().map(|e| e.name()).collect::<Vec<_>>(), "depth": depth, "yield_bound": YIELD_BOUND});
     let deadline = started + Duration::from_secs(tier.pick(50, 3000));
     let capped = AtomicBool::new(false);
@@ -572,7 +602,10 @@ pub fn run(tier: Tier, started: Instant) -> Vec<Part> {
     }
     viols.sort_by_key(|(_, s)| s.len());
     for ((what, sig), s) in viols {
-        part.violation("C19", format!("{what} [script {:?}]", s.iter().map(|e| e.name()).collect::<Vec<_>>()), sig, json!({"engine":"server","script":s.iter().map(|e| e.name()).collect::<Vec<_>>()}));
+        if property == "C17" && sig != "round-skipped-the-seed" {
+            continue;
+        }
+        part.violation(property, format!("{what} [script {:?}]", s.iter().map(|e| e.name()).collect::<Vec<_>>()), sig, json!({"engine":"server","script":s.iter().map(|e| e.name()).collect::<Vec<_>>()}));
     }
     part.states = part.tally.get("scripts");
     part.transitions = part.tally.get("scripts") * (depth as u64 + 3);
@@ -586,7 +619,7 @@ pub fn run(tier: Tier, started: Instant) -> Vec<Part> {
     part.require("user_locks_granted_while_a_send_is_blocked");
     part.require("terminations_reported");
     part.require("live_probes_passed");
-    vec![part, udp_smoke()]
+    part
 }
 
 /// Non-deciding smoke of the real UDP transport over loopback: garbage, an oversized send, then a
@@ -652,7 +685,154 @@ pub fn udp_smoke() -> Part {
     part
 }
 
+/// Send-fault sequences on the real UDP socket over loopback (deciding, but only on decisive
+/// evidence): every sequence of up to `max_len` sends over {small message to a listening peer,
+/// oversized message (send fails with EMSGSIZE), small message to an unusable address (port 0)},
+/// followed by one more small message. Every small message sent to the peer must be accepted by
+/// `send` and arrive as exactly its own bytes, in order. A receive timeout or a socket that cannot
+/// be opened is inconclusive (a note), never a violation.
+pub fn udp_send_faults(max_len: usize) -> Part {
+    let mut part = Part::new(&format!("server/udp-send-fault-sequences(len<={max_len})"));
+    part.rule = format!("the real chitchat::transport::UdpTransport socket on 127.0.0.1: every sequence of at most {max_len} sends over {{small SYN to a listening peer, oversized SYN (two 40 KB ids; the OS refuses it), small SYN to port 0}} followed by a final small SYN; each small SYN to the peer must be accepted and must arrive as exactly its own bytes, in order, whatever failed before; non-trivial = sequences containing a failed send");
+    #[derive(Clone, Copy, PartialEq, Debug)]
+    enum S {
+        Small,
+        Oversized,
+        Unusable,
+    }
+    let mut seqs: Vec<Vec<S>> = vec![vec![]];
+    let mut layer: Vec<Vec<S>> = vec![vec![]];
+    for _ in 0..max_len {
+        let mut next = vec![];
+        for s in &layer {
+            for x in [S::Small, S::Oversized, S::Unusable] {
+                let mut s2 = s.clone();
+                s2.push(x);
+                next.push(s2);
+            }
+        }
+        seqs.extend(next.iter().cloned());
+        layer = next;
+    }
+    let n_seqs = seqs.len();
+    type Out = (u64, u64, Vec<(String, String, Value)>, Vec<String>);
+    let outcome = std::thread::spawn(move || -> Result<Out, String> {
+        let rt = tokio::runtime::Builder::new_current_thread().enable_all().build().map_err(|e| e.to_string())?;
+        rt.block_on(async move {
+            let peer = tokio::net::UdpSocket::bind("127.0.0.1:0").await.map_err(|e| format!("bind: {e}"))?;
+            let peer_addr = peer.local_addr().map_err(|e| e.to_string())?;
+            let small = |tag: &str| real::build_real(&Msg::Syn { digest: vec![], cluster_id: tag.to_string() }).unwrap();
+            let big_id = |c: char, port: u16| Id::v4(&c.to_string().repeat(40_000), 1, port);
+            let oversized = || real::build_real(&Msg::Syn { digest: vec![DigestEntry { id: big_id('a', 1), heartbeat: 1, gc: 0, mv: 0 }, DigestEntry { id: big_id('b', 2), heartbeat: 1, gc: 0, mv: 0 }], cluster_id: "c".into() }).unwrap();
+            let (mut ran, mut with_fault) = (0u64, 0u64);
+            let mut viols = vec![];
+            let mut notes = vec![];
+            let mut buf = vec![0u8; 70_000];
+            for seq in seqs {
+                let mut sock = match chitchat::transport::UdpTransport.open("127.0.0.1:0".parse().unwrap()).await {
+                    Ok(s) => s,
+                    Err(e) => {
+                        notes.push(format!("cannot open a UDP socket: {e}"));
+                        break;
+                    }
+                };
+                ran += 1;
+                if seq.iter().any(|x| *x != S::Small) {
+                    with_fault += 1;
+                }
+                let mut full: Vec<S> = seq.clone();
+                full.push(S::Small);
+                let replay = json!({"engine":"server","udp_sends": full.iter().map(|x| format!("{x:?}")).collect::<Vec<_>>()});
+                let mut expected: Vec<Vec<u8>> = vec![];
+                let mut bad = None;
+                for (i, step) in full.iter().enumerate() {
+                    match step {
+                        S::Small => {
+                            let m = small(&format!("msg-{i}"));
+                            let bytes = real::real_encode(&m);
+                            match sock.send(peer_addr, m).await {
+                                Ok(()) => expected.push(bytes),
+                                Err(e) => {
+                                    bad = Some((format!("send #{i} of a small message failed after {:?}: {e:#}", &full[..i]), "udp-send-fails-after-failed-send".to_string()));
+                                    break;
+                                }
+                            }
+                        }
+                        S::Oversized => {
+                            let _ = sock.send(peer_addr, oversized()).await;
+                        }
+                        S::Unusable => {
+                            let _ = sock.send("127.0.0.1:0".parse().unwrap(), small("for-the-unusable-address")).await;
+                        }
+                    }
+                }
+                if bad.is_none() {
+                    for (k, want) in expected.iter().enumerate() {
+                        match tokio::time::timeout(Duration::from_secs(3), peer.recv_from(&mut buf)).await {
+                            Ok(Ok((n, _))) => {
+                                if &buf[..n] != want.as_slice() {
+                                    bad = Some((format!("after sends {:?} the peer's datagram #{k} has {n} bytes and is not the message that was sent ({} bytes)", full, want.len()), "udp-datagram-is-not-the-sent-message".to_string()));
+                                    break;
+                                }
+                            }
+                            Ok(Err(e)) => {
+                                notes.push(format!("recv error (inconclusive): {e}"));
+                                break;
+                            }
+                            Err(_) => {
+                                notes.push(format!("timeout waiting for datagram #{k} after {:?} (inconclusive)", full));
+                                break;
+                            }
+                        }
+                    }
+                }
+                // drain whatever else arrived
+                while let Ok(Ok(_)) = tokio::time::timeout(Duration::from_millis(1), peer.recv_from(&mut buf)).await {}
+                if let Some((what, sig)) = bad {
+                    viols.push((what, sig, replay));
+                }
+            }
+            Ok((ran, with_fault, viols, notes))
+        })
+    })
+    .join()
+    .unwrap_or_else(|_| Err("udp thread panicked".into()));
+    match outcome {
+        Ok((ran, with_fault, viols, notes)) => {
+            part.states = ran;
+            part.transitions = ran;
+            part.executions = ran;
+            part.distinct_nontrivial = with_fault;
+            part.tally.add("sequences", ran);
+            for (what, sig, replay) in viols {
+                part.violation("C19", what, sig, replay);
+            }
+            for n in notes.into_iter().take(5) {
+                part.notes.push(n);
+            }
+            if (ran as usize) < n_seqs {
+                part.exhaustive = false;
+                part.caps_hit.push("not every sequence could be run (no usable loopback socket)".into());
+            }
+        }
+        Err(e) => {
+            part.exhaustive = false;
+            part.caps_hit.push(format!("not run: {e}"));
+            part.notes.push(format!("udp send-fault sequences inconclusive: {e}"));
+        }
+    }
+    part.sample(json!(["Oversized", "Unusable", "Small", "Small(final)"]));
+    part
+}
+
 pub fn replay(v: &Value) -> Result<(), String> {
+    if v.get("udp_sends").is_some() {
+        let p = udp_send_faults(3);
+        return match p.violations.first() {
+            Some(x) => Err(x.what.clone()),
+            None => Ok(()),
+        };
+    }
     let script: Vec<Ev> = v["script"].as_array().map(|a| a.iter().filter_map(|e| Ev::from_name(e.as_str()?)).collect()).unwrap_or_default();
     let mut t = Tally::default();
     match run_script(&script, &mut t) {
